@@ -120,7 +120,10 @@ Inductive op :=
                                 (profiles have their own, validating, mutators above) *)
 | OClear                     (* .clear() *)
 | OPop                       (* list profiles: .pop() *)
-| ORemoveSat.                (* SatisfactionProfile / SatisfactionMultiProfile .remove_satisfied(bounds, projects) *)
+| ORemoveSat                 (* SatisfactionProfile / SatisfactionMultiProfile .remove_satisfied(bounds, projects) *)
+| OXCtor (t : nat)           (* Target(cur) for ANOTHER class of the same family: a ballot class from a ballot of any kind,
+                                mutable or frozen; a list profile from the multiprofile of the same kind and vice versa *)
+| OFromPlain.                (* type(cur)(bare builtin copy of cur): nothing to inherit, every attribute is the default *)
 
 (* ---- ballot validation ------------------------------------------------------------------------------- *)
 Definition validation_on (a : list nat) : bool := Nat.eqb (nth 1 a 0) 0.
@@ -136,6 +139,13 @@ Definition accepts (c bt t : nat) : bool :=
     if Nat.eqb bt 0 then Nat.eqb t (c - 8) else (6 <=? t) && (t <=? 9)
   else true.
 Definition hashable (t : nat) : bool := (6 <=? t) && (t <=? 9).
+Definition is_ballot (c : nat) : bool := (2 <=? c) && (c <=? 9).
+Definition dictlike (c : nat) : bool := match c with 3 | 4 | 7 | 8 => true | _ => false end.   (* built by dict(init) *)
+Definition maplike (c : nat) : bool := match c with 3 | 4 | 5 | 7 | 8 => true | _ => false end. (* a mapping *)
+(* ballot_type ids: 0 default of the class, 1 Ballot / FrozenBallot of its own side,
+   2 the default of the profile class of the same kind on the OTHER side (list <-> multi), 3 the base class of the other side.
+   A profile built from the profile of the other side inherits that side's ballot type. *)
+Definition other_side_btype (bt : nat) : nat := match bt with 0 => 2 | 1 => 3 | 2 => 0 | 3 => 1 | n => n end.
 Definition frozen_tag (t : nat) : nat := if (2 <=? t) && (t <=? 5) then t + 4 else t.
 
 Fixpoint nl_eqb (l1 l2 : list nat) : bool :=
@@ -208,7 +218,7 @@ Section Env.
     | OUpdateMap _ => "update" | OAsMulti => "as_multiprofile"
     | OCtorVal _ => "ctor(ballot_validation=...)" | OInstMut _ => "instance.clear/update"
     | OAsSat _ => "as_sat_profile" | OMutate n => n | OClear => "clear" | OPop => "pop"
-    | ORemoveSat => "remove_satisfied"
+    | ORemoveSat => "remove_satisfied" | OXCtor _ => "ctor(other class)" | OFromPlain => "ctor(builtin)"
     end.
 
   (* payload of the new container a deriving method computes (profiles only; [] elsewhere) *)
@@ -382,6 +392,27 @@ Section Env.
         else RRaise cur                                                   (* not applicable, never generated *)
     | ORemoveSat =>
         if Nat.eqb c 18 || Nat.eqb c 19 then RNew (mkObj c a []) else RRaise cur
+    | OXCtor t =>
+        if is_ballot c && is_ballot t then
+          (* every ballot constructor takes name and meta from ANY ballot it is given;
+             dict(iterable of projects) is a TypeError (non-empty approval / frozen tuple sources: not generated) *)
+          if dictlike t && negb (maplike c) then RRaise cur else RNew (mkObj t a [])
+        else if (is_list_profile c && Nat.eqb t (c + 4)) then
+          (* XMultiProfile(list profile): Counter of mutable ballots -- unhashable unless there is none *)
+          match p with
+          | [] => RNew (mkObj t (firstn 2 a ++ other_side_btype (btype a) :: skipn 3 a) [])
+          | _ => RRaise cur
+          end
+        else if (is_multi_profile c && Nat.eqb (t + 4) c) then
+          RNew (mkObj t (firstn 2 a ++ other_side_btype (btype a) :: skipn 3 a) [])
+        else RRaise cur   (* other pairs -- cross-kind profiles, SatisfactionProfile(sat multiprofile) -- are outside the
+                             modelled API and never generated *)
+    | OFromPlain =>
+        if is_list_profile c || is_multi_profile c then
+          let a0 := map (fun _ => 0) a in
+          if all_valid c a0 p && forallb (fun ec => negb (is_multi_profile c) || hashable (tag (fst ec))) p
+          then RNew (mkObj c a0 p) else RRaise cur
+        else RNew (mkObj c (map (fun _ => 0) a) [])
     end.
 
   (* the driver of the correspondence run: a new object of the object's own class WITH THE SAME ATTRIBUTES
